@@ -162,12 +162,17 @@ class State:
                 (52, 1, struct.pack(">H", 1)), (29, 3, P.cstr(b"%windir%\\syswow64\\rundll32.exe", 64)), (30, 3, P.cstr(b"%windir%\\sysnative\\rundll32.exe", 64)),
                 (15, 3, P.cstr(b"\\\\.\\pipe\\msagent_12", 64)), (78, 3, P.enc_beacon_gate(init["gate"])),
             ]  # fmt: skip
+        self.cfg = cfg
         self.block = cfgbuild.block_from_cfg(cfg, keys.der_public("rsa_1024_a"), extra=extra)
         self.cfgobj = lib(BeaconConfig, self.block, what="BeaconConfig(block)")
         self.decoders = []
         self.initial = lib(lambda: snapshot(self.cfgobj), what="snapshot")
         self.ndecoders = 0
         self.profile_after_decoder = False
+        # names an unrelated message already carries when this history starts (nothing on a sound tree): the foreign-field
+        # oracle only counts what appears during this history, so that every reported history reproduces by itself
+        probe = lib(lambda: c2.HttpDataTransform([("BUILD", "metadata"), ("PRINT", True)]).transform(c2.C2Data(metadata=b"")), what="probe transform")
+        self.baseline = {bytes(k) for k in probe.headers} | {bytes(k) for k in probe.params}
 
     def fresh(self):
         return self.BeaconConfig(self.block)
@@ -186,6 +191,16 @@ def apply_op(st_, op):
         want = lib(do_operation, st_.c2, st_.prof, st_.fresh(), fresh_decoders, op, False, what="fresh operation")
     else:
         want = lib(do_operation, st_.c2, st_.prof, st_.fresh(), fresh_decoders, op, False, what="fresh operation")
+    if kind == "transform" and st_.decoders and got is not None:
+        # "fresh" above still shares the process with everything done before; the names a message carries are also
+        # compared with what the configuration's program defines (nothing left over from earlier messages)
+        steps = {"get": st_.cfg["get_steps"], "post": st_.cfg["post_steps"]}.get(op[2], [])
+        want_h = sorted({a for n, a in steps if n == "HEADER"} | {a.partition(b": ")[0] for n, a in steps if n in ("_HEADER", "_HOSTHEADER")})
+        want_p = sorted({a for n, a in steps if n == "PARAMETER"} | {a.partition(b"=")[0] for n, a in steps if n == "_PARAMETER"})
+        got_p = sorted(k[1] for k, _ in got[1] if k[1] in want_p or k[1] not in st_.baseline)
+        got_h = sorted(k[1] for k, _ in got[2] if k[1] in want_h or k[1] not in st_.baseline)
+        if got_h != want_h or got_p != want_p:
+            raise Violation("history:transform_carries_foreign_fields", f"operation {op[:3]!r}: message has headers {got_h} / parameters {got_p}, the program defines {want_h} / {want_p}")
     if got != want:
         raise Violation(f"history:{kind}_result_depends_on_history", f"operation {op[:3]!r}: result differs from the same operation on a fresh configuration:\n got={str(got)[:600]}\nwant={str(want)[:600]}")
     now = lib(lambda: snapshot(st_.cfgobj), what="snapshot")
